@@ -235,6 +235,10 @@ def replay_case(r, workdir):
             return None, "inconclusive (resource limit)"
         got = "ok" if cr.ok else "fail"
         return got != r["expect"], "compile %s (expected %s): %s" % (got, r["expect"], cr.first_error())
+    if r["mode"] == "pyjudge" and r.get("no_build"):
+        import importlib
+        mod, fn = r["judge"].split(":")
+        return getattr(importlib.import_module(mod), fn)(r["params"], 0, "", "")
     exe = src[:-3] + ".exe"
     cr = compile_one(cfg, src, exe, flags=flags, defines=r.get("defines", []))
     if not cr.ok:
